@@ -12,6 +12,7 @@ open Yata
 
 def rabs (q : Rat) : Rat := if q < 0 then -q else q
 def rmax (a b : Rat) : Rat := if a < b then b else a
+def rmin (a b : Rat) : Rat := if b < a then b else a
 
 def signi (q : Rat) : Int := sgn (decide (0 < q)) - sgn (decide (q < 0))
 
@@ -686,7 +687,7 @@ def vals (s : ADX) (k : Candle Rat) (f : Option (List Rat)) : Except Panic (List
     let fp := fb f 1 plus
     let fm := fb f 2 minus
     let sm := fp + fm
-    let t := if sm == 0 then 0 else rabs (fp - fm) / sm
+    let t := if sm ≤ 0 then 0 else rmin (rabs (fp - fm) / sm) 1
     let (adx, a) ← maNext s.ma2 t
     let κ := maK s.tr_ma
     let mag := rmax s.mag (rabs t)
